@@ -217,7 +217,11 @@ def add_stream(env: Env, directory: str, title: str, filenames: list[str], timin
             rep = mf.representation
             info["files"][stem].update(content_type=rep.content_type, encrypted=bool(rep.encrypted),
                                        track_id=rep.track_id, timescale=rep.timescale)
-    models.db.session.flush()
+    # the server sets the timing reference in a later request, from re-loaded rows: do the same
+    # (a freshly parsed Representation object has not computed num_media_segments yet)
+    models.db.session.commit()
+    models.db.session.expire_all()
+    stream = models.Stream.get(directory=directory)
     ref_mf = None
     if timing_ref is not None:
         ref_mf = models.MediaFile.get(name=timing_ref)
@@ -239,6 +243,41 @@ _shared: dict[str, Env] = {}
 
 def shared_env(key: str = "default", **kw) -> Env:
     """One read-only serving app per process."""
-    if key not in _shared:
-        _shared[key] = make_env(**kw)
-    return _shared[key]
+    env = _shared.get(key)
+    if env is not None and sum(1 for v in env.streams.values() if "spec" in v) > 250:
+        # bound memory/disk: start again with a fresh app (only between cases)
+        env.close()
+        env = None
+        from . import session
+        session._scan_cache.clear()
+    if env is None:
+        env = _shared[key] = make_env(**kw)
+    return env
+
+
+def add_synth_stream(env: Env, spec: dict) -> str:
+    """Write the synthetic files of `spec` under BLOB_FOLDER and register+index them (idempotent)."""
+    from . import synth
+    sid = synth.spec_id(spec)
+    if sid in env.streams:
+        return sid
+    with env.app.app_context():
+        sid, names = synth.write_stream(env.blob_folder, FIXTURES, spec)
+        ref = Path(names[spec.get("ref", 0)]).stem
+        add_stream(env, sid, f"synthetic {sid}", names, timing_ref=ref,
+                   marlin=f"ms3://localhost/marlin/{sid}", playready="https://test.playready.microsoft.com/service/rightsmanager.asmx?cfg={cfgs}")
+    env.streams[sid]["spec"] = spec
+    return sid
+
+
+def drop_stream(env: Env, directory: str) -> None:
+    from dashlive.server import models
+    with env.app.app_context():
+        st = models.Stream.get(directory=directory)
+        if st is not None:
+            for mf in list(st.media_files):
+                models.db.session.delete(mf)
+            models.db.session.delete(st)
+            models.db.session.commit()
+    shutil.rmtree(env.blob_folder / directory, ignore_errors=True)
+    env.streams.pop(directory, None)
